@@ -19,7 +19,14 @@ impl LintPass for ControlFlowCheck {
                 // If the previous nodes set is not empty
                 // Note: this also accounts for functions being at the beginning
                 // of a program, as the ProgEntry node will be the previous node
-                for prev_node in node.prevs().iter() {
+                // Visit the predecessors in program order: the set itself is
+                // iterated in hash order, which made the order of two
+                // diagnostics on the same entry differ between runs.
+                let prevs = cfg
+                    .iter()
+                    .filter(|p| node.prevs().iter().any(|q| Rc::ptr_eq(p, q)))
+                    .collect::<Vec<_>>();
+                for prev_node in &prevs {
                     for function in node.functions().iter() {
                         if prev_node.is_program_entry() {
                             errors.push(LintError::FirstInstructionIsFunction(
